@@ -1,0 +1,51 @@
+//go:build verif
+
+package loader
+
+// Contracts for the verification machinery in /verif (see /verif/DESIGN.md).
+// This file contains only comments; it is compiled to nothing.
+
+//@ prop C04
+
+//@ ghost frec(format string, a []any) int
+//@ extern fmt.Fprintf(w io.Writer, format string, a []any) (n int, err error)
+//@   modifies cache.Hash.input
+//@   ensures istype(w, *cache.Hash) ==> len(astype(w, *cache.Hash).input) == len(old(astype(w, *cache.Hash).input)) + 1 && astype(w, *cache.Hash).input[len(old(astype(w, *cache.Hash).input))] == frec(format, a)
+//@   ensures istype(w, *cache.Hash) ==> (forall i int :: {astype(w, *cache.Hash).input[i]} 0 <= i && i < len(old(astype(w, *cache.Hash).input)) ==> astype(w, *cache.Hash).input[i] == old(astype(w, *cache.Hash).input)[i])
+//@ extern fmt.Errorf(format string, a []any) error
+//@   ensures result != nil
+//@ extern strings.IndexRune(s string, r rune) int
+//@   pure
+//@   ensures -1 <= result && result < len(s)
+//@ extern sort.Slice(x any, less func(i int, j int) bool)
+//@   writes  x
+//@   ensures len(x) == len(old_x)
+//@ immutable runtime.GOOS, runtime.GOARCH
+
+// buildID(f): the build id the Go toolchain recorded in export file f ("actionID/contentID")
+//@ ghost buildID(f string) string
+//@ func getBuildid
+//@   trusted
+//@   ensures result1 == nil ==> result0 == buildID(f)
+
+// Key completeness of the package hash: the hash absorbs the salt, GOOS/GOARCH, the import
+// path, then either the ACTION id of the package's export file (the part of the build id before
+// the '/', which covers the sources) or the content hash of every compiled Go file and go.mod,
+// and then one record per import naming its path and its build id / content hash.
+//@ func computeHash
+//@   modifies heap
+//@   may_panic
+//@   nosafe   all
+//@   requires pkg != nil
+//@   loop 1   index nf
+//@   loop 1   invariant [hash]   key != nil && len(key.input) == 3 + nf
+//@   loop 1   invariant [prefix] key.input[0] == cache.saltRec() && key.input[1] == frec("goos %s goarch %s\n", args(runtime.GOOS, runtime.GOARCH)) && key.input[2] == frec("import %q\n", args(pkg.PkgPath))
+//@   loop 1   invariant [files]  forall j int :: {pkg.CompiledGoFiles[j]} 0 <= j && j < nf ==> key.input[3 + j] == frec("file %s %x\n", args(pkg.CompiledGoFiles[j], cache.contentHash(pkg.CompiledGoFiles[j])))
+//@   loop 2   invariant [hash]   key != nil && key.input == loopentry(key.input)
+//@   loop 3   index q
+//@   loop 3   ghost   base = len(key.input)
+//@   loop 3   invariant [hash]   key != nil && len(key.input) == base + q
+//@   loop 3   invariant [prefix] key.input[0] == cache.saltRec() && key.input[1] == frec("goos %s goarch %s\n", args(runtime.GOOS, runtime.GOARCH)) && key.input[2] == frec("import %q\n", args(pkg.PkgPath))
+//@   loop 3   invariant [action] success ==> key.input[3] == frec("files %s\n", args(buildID(pkg.ExportFile)[0:strings.IndexRune(buildID(pkg.ExportFile), '/')])) && base == 4
+//@   loop 3   invariant [imports] forall j int :: {imps[j]} 0 <= j && j < q ==> key.input[base + j] == (imps[j].ExportFile == "" ? frec("import %s \n", args(imps[j].PkgPath)) : key.input[base + j]) && (imps[j].ExportFile != "" ==> (key.input[base + j] == frec("import %s %s\n", args(imps[j].PkgPath, buildID(imps[j].ExportFile))) || key.input[base + j] == frec("import %s %x\n", args(imps[j].PkgPath, cache.contentHash(imps[j].ExportFile)))))
+//@   at call cache.(*Hash).Sum#1 assert [key] key.input[0] == cache.saltRec() && key.input[2] == frec("import %q\n", args(pkg.PkgPath)) && (success ==> key.input[3] == frec("files %s\n", args(buildID(pkg.ExportFile)[0:strings.IndexRune(buildID(pkg.ExportFile), '/')])))
